@@ -6,6 +6,9 @@ from . import c07
 
 FAULTS = ["valid", "crasher", "mutant", "early-close", "rst-before-send", "rst-after-send", "rst-mid-request", "half-request-then-close", "idle-then-close", "oversized", "burst",
           "rst-during-big-response", "close-without-reading-big-response", "never-read-then-close", "stall-all-workers-then-close", "half-close-then-read", "drip-then-close"]
+# request handling that fails internally, over real sockets: the harness runs the real accept loop and pool with an
+# application that panics / errs / stalls when the request asks for it (vh srv)
+FAULTS_MIXED = ["handler-panic", "handler-panic-long-message", "handler-panic-non-string", "handler-err", "handler-panic-then-rst", "handler-slow-then-rst", "handler-slow-then-close", "handler-panic-burst"]
 BIG = "/c06-big4m.bin"
 BIGREQ = ("GET %s HTTP/1.1\r\nHost: x\r\n\r\n" % BIG).encode()
 
@@ -122,6 +125,40 @@ def step(srv, kind, rng, valid, crashers, mutants):
             except OSError:
                 pass
             s.close()
+        elif kind.startswith("handler-"):
+            f = srv.probe_path
+            tag = {"handler-panic": "__panic", "handler-panic-long-message": "__panic_long", "handler-panic-non-string": "__panic_any", "handler-err": "__err",
+                   "handler-panic-then-rst": "__panic", "handler-slow-then-rst": "__slow", "handler-slow-then-close": "__slow", "handler-panic-burst": "__panic"}[kind]
+            raw = ("GET %s?%s HTTP/1.1\r\nHost: x\r\n\r\n" % (f, tag)).encode()
+            if kind == "handler-panic-burst":
+                socks = []
+                for _ in range(srv.threads + 3):
+                    try:
+                        s = srv.connect()
+                        s.sendall(raw)
+                        socks.append(s)
+                    except OSError:
+                        pass
+                for i, s in enumerate(socks):
+                    try:
+                        if i % 2:
+                            server.rst_close(s)
+                        else:
+                            s.settimeout(2)
+                            s.recv(100)
+                            s.close()
+                    except (OSError, socket.timeout):
+                        pass
+            elif kind.endswith("-then-rst") or kind.endswith("-then-close"):
+                s = srv.connect()
+                s.sendall(raw)
+                time.sleep(rng.choice([0.0, 0.001, 0.05]))
+                if kind.endswith("rst"):
+                    server.rst_close(s)
+                else:
+                    s.close()
+            else:
+                srv.request(raw, timeout=6)
         elif kind == "oversized":
             srv.request(b"GET / HTTP/1.1\r\nHost: x\r\nX-Pad: " + b"p" * rng.choice([10001, 20000, 40000]) + b"\r\n\r\n", timeout=10)
         elif kind == "burst":
@@ -200,12 +237,19 @@ def probe_after(c, srv, t, n, history, probe_file):
     if len(alive) < n:
         c.violation("C06:worker-lost:%s" % log_mechanism(srv), "only workers %s of %d remain after a history of %d connections (kinds %s)" % (alive, n, len(history), kinds), rp)
         return False
-    ev = srv.hook_events()
-    lastev = {}
-    for seq, point, w in ev:
-        if point != "Submit":
-            lastev[w] = point
-    stuck = [w for w in range(n) if lastev.get(w) not in ("BeforeLock", "Locked")]
+    # bounded progress: every worker is back in its loop within 10 s of the last connection being closed (the slowest
+    # handler of the campaign takes 0.3 s; a response to a closed peer fails at once)
+    t0 = time.time()
+    while True:
+        ev = srv.hook_events()
+        lastev = {}
+        for seq, point, w in ev:
+            if point != "Submit":
+                lastev[w] = point
+        stuck = [w for w in range(n) if lastev.get(w) not in ("BeforeLock", "Locked")]
+        if not stuck or not ev or time.time() - t0 > 10:
+            break
+        time.sleep(0.05)
     if stuck and ev:
         c.violation("C06:worker-not-back-in-loop", "workers %s are not back in the accept loop at quiescence (last events %s)" % (stuck, {w: lastev.get(w) for w in stuck}), rp)
         return False
@@ -279,7 +323,7 @@ def probe_after(c, srv, t, n, history, probe_file):
 def run(c):
     c.rule = ("histories (length 1..300, longer than the worker count) of connections drawn from: valid requests, the committed crash corpus, fresh mutations, early close, RST before / after / in the middle of sending, "
               "half-sent request, idle then close, oversized request, 50 connections at once, reset / close / never read while a 4 MiB response is being written, N+2 silent connections parking every worker then closing, "
-              "half-close then read, request dripped in two pieces then close; against the real binary with N in {1,2,3,4,8,16} workers; after quiescence: process alive, /proc census of worker threads, "
+              "half-close then read, request dripped in two pieces then close; the same accept loop and pool with an application that panics (short / long multi-byte / non-string payload), returns Err or stalls on request, also with the peer resetting meanwhile; against the real binary with N in {1,2,3,4,8,16} workers; after quiescence: process alive, /proc census of worker threads, "
               "hook events show every worker back in its loop, a valid GET answered byte-exactly, N-1 idle connections + one request still answered. In-process: the real pool runs Server::process jobs on transports "
               "with read / write-at-byte-k / flush errors and a rendezvous of N afterwards. Class = (fault-kind multiset, N, history-length class); non-trivial = contains >= 1 fault.")
     c.level = "fault_enumeration"
@@ -353,9 +397,52 @@ def run(c):
         finally:
             for s in servers.values():
                 s.cleanup()
+        mixed_histories(c, t, rng, valid, crashers, mutants, probe_file)
         engine_a(c, t, rng, valid, crashers, mutants)
     finally:
         t.cleanup()
+
+
+def mixed_histories(c, t, rng, valid, crashers, mutants, probe_file):
+    """histories in which request handling itself fails (panics with several payloads, Err, slow handler whose peer has
+    gone), against the real accept loop and pool on real sockets"""
+    for k in FAULTS_MIXED:
+        c.need("fault kind " + k)
+    ns = [1, 2, 4, 8]
+    histories = []
+    for i, k in enumerate(FAULTS_MIXED):
+        histories.append((ns[i % 4], [k] * (ns[i % 4] + 2)))
+    alphabet = FAULTS_MIXED * 2 + ["valid", "rst-after-send", "early-close", "half-request-then-close", "stall-all-workers-then-close"]
+    for i in range(8 if c.quick else 200):
+        n = ns[i % 4]
+        histories.append((n, [rng.choice(alphabet) for _ in range(rng.choice([3, n + 2, 2 * n + 5, 30]))]))
+    servers = {}
+    try:
+        for n, kinds in histories:
+            srv = servers.get(n)
+            if srv is None or not srv.alive():
+                if srv is not None:
+                    srv.cleanup()
+                srv = server.Server(t.root, threads=n, trace=True, mixed_app=True)
+                srv.probe_path = probe_file
+                if not srv.started:
+                    c.inconc("harness server with %d workers did not start" % n)
+                    srv.cleanup()
+                    servers.pop(n, None)
+                    continue
+                servers[n] = srv
+            for k in kinds:
+                step(srv, k, rng, valid, crashers, mutants)
+                c.seen("fault kind " + k)
+            quiesce(srv)
+            c.ev()
+            c.cls("mixed-app", tuple(sorted(set(kinds) - {"valid"})), n, "long" if len(kinds) > 2 * n else "short")
+            if not probe_after(c, srv, t, n, kinds, probe_file):
+                srv.cleanup()
+                servers.pop(n, None)
+    finally:
+        for s in servers.values():
+            s.cleanup()
 
 
 def engine_a(c, t, rng, valid, crashers, mutants):
